@@ -257,7 +257,7 @@ type childOut struct {
 func runChild(timeout time.Duration, env []string, args ...string) childOut {
 	ctx, cancel := context.WithTimeout(context.Background(), timeout)
 	defer cancel()
-	cmd := exec.CommandContext(ctx, self, args...)
+	cmd := hx.Supervised(exec.CommandContext(ctx, self, args...))
 	cmd.Env = append(append(os.Environ(), "GOMEMLIMIT=2GiB"), env...)
 	var so, se bytes.Buffer
 	cmd.Stdout, cmd.Stderr = &so, &se
